@@ -82,30 +82,43 @@ def run(ctx):
     ctx.floor(rule, 1)
 
     rule = "R-C13.G.aggshare"
+    # merge / accumulate add the whole other vector through merge_vector (which checks the lengths before it writes) and
+    # propagate its refusal - directly, or through the private `sum` helper of the reviewed tree (either layout is accepted)
+    mv_direct = Call("merge_vector", Field(Arg(1), "0"), Mentions(Arg(2)))
+    has_sum = bool(ctx.prog.find(name="sum", self_adt="vdaf::AggregateShare"))
+    n_inst = 0
     for nm in ("merge", "accumulate"):
         try:
             f = ctx.fn(rule, name=nm, trait="Aggregatable", self_adt="vdaf::AggregateShare")
             g = ctx.guards(f)
             key = "%s:%s" % (rule, f.id)
             rds = g.retdefs
-            if len(rds) == 1 and rds[0].kind == "call" and Call("sum", Arg(1), Mentions(Arg(2)))(rds[0].expr) and not adapters_in(rds[0].expr):
+            n_inst += 1
+            if has_sum and len(rds) == 1 and rds[0].kind == "call" and Call("sum", Arg(1), Mentions(Arg(2)))(rds[0].expr) and not adapters_in(rds[0].expr):
                 ctx.ok(rule, key, "%s = self.sum(other.as_ref())" % nm, loc=f.loc)
+                continue
+            writes = [ce for bi, t in f.body.calls() for ce in [g.eb.call_expr(t)] if t.callee.name in ("merge_vector", "add_assign", "push", "extend", "clear", "truncate")]
+            if len(writes) == 1 and mv_direct(writes[0]) and not adapters_in(writes[0]) and \
+                    ctx.require_try_call(rule, f, mv_direct, desc="merge_vector(self.0, other)", key=key + ":propagated") is not None:
+                ctx.ok(rule, key, "%s = merge_vector(&mut self.0, whole other vector) with its refusal propagated" % nm, loc=f.loc)
             else:
-                ctx.bad(rule, key, "%s is not a plain delegation to sum(whole other vector): %s" % (nm, [fmt(r.expr)[:120] for r in rds]), loc=f.loc)
+                ctx.bad(rule, key, "%s is not a plain delegation to merge_vector(whole other vector): %s" % (nm, [fmt(r.expr)[:120] for r in rds]), loc=f.loc)
         except Skip:
             pass
-    try:
-        f = ctx.fn(rule, name="sum", self_adt="vdaf::AggregateShare")
-        g = ctx.guards(f)
-        key = "%s:%s" % (rule, f.id)
-        rds = g.retdefs
-        if len(rds) == 1 and rds[0].kind == "call" and Call("map_err", Call("merge_vector", Field(Arg(1), "0"), Arg(2)))(rds[0].expr):
-            ctx.ok(rule, key, "sum = merge_vector(&mut self.0, other).map_err(..)", loc=f.loc)
-        else:
-            ctx.bad(rule, key, "sum is not merge_vector(&mut self.0, other).map_err(..): %s" % [fmt(r.expr)[:120] for r in rds], loc=f.loc)
-    except Skip:
-        pass
-    ctx.floor(rule, 3)
+    if has_sum:
+        try:
+            f = ctx.fn(rule, name="sum", self_adt="vdaf::AggregateShare")
+            g = ctx.guards(f)
+            key = "%s:%s" % (rule, f.id)
+            rds = g.retdefs
+            n_inst += 1
+            if len(rds) == 1 and rds[0].kind == "call" and Call("map_err", Call("merge_vector", Field(Arg(1), "0"), Arg(2)))(rds[0].expr):
+                ctx.ok(rule, key, "sum = merge_vector(&mut self.0, other).map_err(..)", loc=f.loc)
+            else:
+                ctx.bad(rule, key, "sum is not merge_vector(&mut self.0, other).map_err(..): %s" % [fmt(r.expr)[:120] for r in rds], loc=f.loc)
+        except Skip:
+            pass
+    ctx.floor(rule, 2)
 
     rule = "R-C13.G.poplar1"
     for nm in ("merge", "accumulate"):
@@ -197,7 +210,7 @@ def run(ctx):
         f = ctx.fn(rule, name="unshard", trait="Collector", self_adt="vdaf::prio3::Prio3")
         g = ctx.guards(f)
         key = "%s:%s" % (rule, f.id)
-        accs = [rd for rd in g.retdefs if rd.kind == "ok"]
+        accs = [rd for rd in g.retdefs if rd.kind in ("ok", "call") and rd.expr is not None]     # `Ok(r?)` or the mapped result returned as is
         good = False
         if len(accs) == 1:
             phis = [x for x in walk(accs[0].expr) if isinstance(x, tuple) and x[0] == "phi"]
